@@ -48,6 +48,10 @@ def classify(case, nodes, lib_nodes, r):
     """Compare the real expansion with the reference evaluator.
     Returns (status, detail) with status in match | cosmetic | out_of_scope | compile_error |
     known:<tag> | mismatch | exception"""
+    if case.get("unclosed"):
+        if "compile_exc" in r:
+            return "rejected_unclosed", None
+        return "known:unclosed-tal-element", {"expected": "TemplateParseException (TAL/METAL elements must be balanced)"}
     if "compile_exc" in r:
         return "compile_error", {"exception": r["compile_exc"]}
     try:
@@ -88,24 +92,30 @@ def run(tier):
         nodes = corpus_nodes(name)
         src = talgen.serialize(nodes)      # (the strings in CORPUS are for the reader)
         cases.append({"id": len(cases), "main": src, "lib": None, "ctx": ctx, "options": tc.OPTIONS_SPEC,
-                      "allow_python": 0, "want": ["prog", "snap", "trace"], "corpus": name})
+                      "allow_python": 0, "want": ["prog", "snap", "trace", "events"], "corpus": name})
         trees.append((nodes, None))
     while len(cases) < n_templates + len(CORPUS):
         i = len(cases)
-        want = ["prog"]
+        want = ["prog", "events"]
         if i % 4 == 0:
             want.append("bytes")
         d = maxdepth if rng.random() < 0.6 else rng.choice(range(1, maxdepth + 1))
         case, nodes, lib_nodes = tc.make_case(rng, i, d, want=want)
         if lib_nodes is None and (i % 2 == 0 or not thorough):
             case["want"].append("trace")
+        if rng.random() < 0.01:
+            # a TAL element that is never closed (no enclosing end tag follows): must be rejected
+            case["main"] += '<p tal:content="s1">tail'
+            case["unclosed"] = True
+            case["want"] = ["prog", "events"]
         cases.append(case)
         trees.append((nodes, lib_nodes))
     results = tc.run_cases(cases)
+    variant = tc.probe_variant()
 
     # ---------------- oracle (a): reference evaluator vs real expand ----------------
     stats = {}
-    best = {}
+    fnd = tc.Findings(chk)
     cmdsets = {}
     depth_hist = {}
     for case, (nodes, lib_nodes), r in zip(cases, trees, results):
@@ -123,7 +133,9 @@ def run(tier):
         if status.startswith("known:") or status in ("mismatch", "exception", "compile_error"):
             found_here = True
             tag = status.split(":", 1)[1] if status.startswith("known:") else "expand-" + status
-            what = {"content-text-keyword": "tal:content/replace with the `text` keyword evaluates the path \"text <expr>\" "
+            what = {"unclosed-tal-element": "the compiler accepts a template whose last TAL element is never closed: the program has "
+                                            "an unbalanced scope and an undefined end-tag symbol (expansion raises KeyError)",
+                    "content-text-keyword": "tal:content/replace with the `text` keyword evaluates the path \"text <expr>\" "
                                             "(compileCmdContent tests attProps[1] instead of attProps[0])",
                     "nocall-contextvariable": "exists:/nocall: on a path that ends at a repeat variable raises KeyError('realValue') "
                                               "(simpleTALES.traversePath reads val.realValue)",
@@ -131,17 +143,13 @@ def run(tier):
             rep = {"what": what, "case": tc.replay_doc(case, nodes, lib_nodes),
                    "expected": tc.short((detail or {}).get("expected"), 2000),
                    "actual": tc.short(r.get("out"), 2000), "exception": r.get("exc") or r.get("compile_exc")}
-            # one replay per tag is enough; keep the smallest template
-            if tag not in best or len(case["main"]) < len(best[tag]["case"]["template"]):
-                best[tag] = rep
+            fnd.add(tag, rep, len(case["main"]))      # one replay per tag: the smallest template
             found = True
         if r.get("bytes_equal") is False:
             found = True
-            chk.violation({"what": "expansion into a bytes file differs from expansion into a text file",
-                           "case": tc.replay_doc(case, nodes, lib_nodes), "detail": r.get("bytes_exc")}, tag="bytes-output")
-    for tag, rep in sorted(best.items()):
-        rep["occurrences"] = stats.get("known:" + tag, stats.get(tag.replace("expand-", ""), 0))
-        chk.violation(rep, tag=tag)
+            fnd.add("bytes-output", {"what": "expansion into a bytes file differs from expansion into a text file",
+                                     "case": tc.replay_doc(case, nodes, lib_nodes), "detail": r.get("bytes_exc")},
+                    len(case["main"]))
 
     # ---------------- oracle: program well-formedness stated directly on the real commandList ----------------
     progs = []
@@ -152,20 +160,44 @@ def run(tier):
             p = (r.get("prog") or {}).get(which)
             if p is None:
                 continue
+            if case.get("unclosed"):
+                continue          # reported above under its own tag
             progs.append(p)
             prog_src.append((case, which))
             why = tc.py_wf(p)
             if why is not None:
                 notwf += 1
                 found = True
-                chk.violation({"what": "compiled program is not structurally well formed: " + why,
-                               "template": case[which], "commandList": p["cmds"], "symbolTable": p["sym"],
-                               "macros": p["macros"]}, tag="program-not-wf")
+                fnd.add("program-not-wf", {"what": "compiled program is not structurally well formed: " + why,
+                                           "template": case[which], "commandList": p["cmds"], "symbolTable": p["sym"],
+                                           "macros": p["macros"]}, len(case[which]))
+    fnd.flush()
 
     # ---------------- K: wf_program on the real programs, inside Coq ----------------
     mism, err, nsh = tc.k_wf("C17", "k_wf", progs)
     k_broken = bool(mism or err)
     k_detail = {"wf_mismatches": [{"template": prog_src[i][0][prog_src[i][1]]} for i in mism[:5]], "errors": [err]}
+
+    # ---------------- K: the compiler model, fed with the recorded parser events ----------------
+    citems, csrc = [], []
+    for case, r in zip(cases, results):
+        ev = (r.get("events") or {}).get("main")
+        if ev is None:
+            continue
+        if any(e[0] in ("CR", "ER") for e in ev):
+            continue
+        citems.append((ev, (r.get("prog") or {}).get("main")))
+        csrc.append(case["main"])
+    mal = tc.run_cases([{"id": i, "main": src, "lib": None, "ctx": {}, "options": None, "want": ["prog", "events"]}
+                        for i, src in enumerate(tc.MALFORMED)])
+    for src, r in zip(tc.MALFORMED, mal):
+        citems.append((r["events"]["main"], (r.get("prog") or {}).get("main")))
+        csrc.append(src)
+    mism_c, err_c, nsh_c = tc.k_compile("C17", "k_compile", citems, variant)
+    if mism_c or err_c:
+        k_broken = True
+        k_detail["compile_mismatches"] = [csrc[i] for i in mism_c[:5]]
+        k_detail["errors"].append(err_c)
 
     # ---------------- K: abstract VM follows the real interpreter's control flow ----------------
     titems, tsrc = [], []
@@ -186,6 +218,17 @@ def run(tier):
         k_broken = True
         k_detail["trace_mismatches"] = [{"template": tsrc[i]["main"], "context": tsrc[i]["ctx"]} for i in mism_t[:5]]
         k_detail["errors"].append(err_t)
+
+    # ---------------- K: Context.evaluate (dispatch, alternation, not/exists/nocall/string) ----------------
+    ecases = tc.eval_cases(rng, 120 if thorough else 30, 40)
+    mism_e, err_e, nsh_e, esrc, eskipped = tc.k_eval("C17", "k_eval", ecases)
+    if mism_e or err_e:
+        k_broken = True
+        k_detail["evaluate_mismatches"] = [esrc[i] for i in mism_e[:5]]
+        k_detail["errors"].append(err_e)
+    for sitem in esrc[::53]:
+        chk.count(("eval", sitem["expression"], sitem["allow_python"]))
+    chk.coverage["evaluations"] += len(esrc)
 
     # ---------------- K: RepeatVariable arithmetic, exhaustive for positions 0..5000 ----------------
     pairs = []
@@ -225,11 +268,18 @@ def run(tier):
 
     cov["correspondence"] = {
         "programs_checked_wf_in_coq": len(progs), "wf_mismatches": len(mism), "wf_shards": nsh,
+        "compile_model_cases": len(citems), "compile_mismatches": len(mism_c), "compile_shards": nsh_c,
+        "compile_rejections_agreed": sum(1 for _, p in citems if p is None),
+        "compiler_variant_detected": {"text_keyword_fixed": variant[0], "cdata_passthrough_fixed": variant[1],
+                                      "unclosed_tal_rejected": variant[2]},
         "vm_traces_followed_in_coq": len(titems), "trace_mismatches": len(mism_t), "trace_shards": nsh_t,
         "traces_skipped": skipped_trace,
         "trace_steps": sum(len(t["entries"]) for _, t in titems),
+        "evaluate_expressions": len(esrc), "evaluate_mismatches": len(mism_e), "evaluate_raised_skipped": eskipped,
+        "evaluate_not_found_results": sum(1 for x in esrc if x["real"]["res"] is None),
+        "evaluate_with_python_evaluations": sum(1 for x in esrc if x["real"]["evals"] > 0),
         "repeat_variable_cases": len(pairs), "repeat_variable_mismatches": len(mism_r),
-        "errors": [e for e in (err, err_t, err_r) if e],
+        "errors": [e for e in (err, err_t, err_r, err_c, err_e) if e],
     }
     cov["oracle"] = {"templates": len(cases), "status": stats, "programs_not_wf": notwf,
                      "depth_histogram": {str(k): v for k, v in sorted(depth_hist.items())},
